@@ -198,6 +198,11 @@ pub struct MemBuildCase {
     /// A builder is Send; where its memory lives must not depend on which
     /// thread happens to drive it. 1 = one thread (everything else).
     pub threads: u8,
+    /// insert loop only, before the first key of the family: bit 0 = the
+    /// empty key is inserted first; bit 1 = the first 1000 keys arrive through
+    /// ONE extend_iter call whose last item must be refused (the call returns
+    /// an error half-way; the caller goes on with single inserts)
+    pub prologue: u8,
 }
 
 #[derive(Clone, Debug)]
@@ -517,7 +522,35 @@ pub fn run_mem_build(case: &MemBuildCase) -> MemBuildRun {
                 );
             }
         }
-        for i in 0..(if case.bulk { 0 } else { fam.n }) {
+        let mut first = 0u64;
+        if !case.bulk && case.prologue & 1 != 0 {
+            let _ = match &mut b {
+                AnyBuilder::Map(m) => m.insert(b"", 1),
+                AnyBuilder::Set(s) => s.insert(b""),
+                AnyBuilder::Raw(r) => r.add(b""),
+            };
+        }
+        if !case.bulk && case.prologue & 2 != 0 && fam.n > 2000 {
+            first = 1000;
+            let mut items: Vec<(Vec<u8>, u64)> = (0..first)
+                .map(|i| {
+                    fam.key_into(i, &mut key);
+                    (key.clone(), fam.value(i))
+                })
+                .collect();
+            // the last item repeats the first one: refused (smaller than its predecessor)
+            items.push(items[0].clone());
+            let r = match &mut b {
+                AnyBuilder::Map(m) => m.extend_iter(items.iter().map(|(k, v)| (k, *v))),
+                AnyBuilder::Set(s) => s.extend_iter(items.iter().map(|(k, _)| k)),
+                AnyBuilder::Raw(r) => r.extend_iter(items.iter().map(|(k, v)| (k, fst::raw::Output::new(*v)))),
+            };
+            if r.is_ok() {
+                run.refused += 1; // (the refusal itself is C06's business)
+            }
+            drop(items);
+        }
+        for i in first..(if case.bulk { 0 } else { fam.n }) {
             fam.key_into(i, &mut key);
             let r = match &mut b {
                 AnyBuilder::Map(m) => m.insert(&key, fam.value(i)),
@@ -1057,6 +1090,33 @@ fn measure_all(fam: &KeyFamily, k: u32, fsts_bytes: &[Vec<u8>]) -> Vec<OpMeasure
         }
         hits
     }));
+    // many short-lived streams one after another on this thread: successor
+    // queries (a lower-bounded range dropped after one item) and small
+    // unions; then once more a complete scan. Neither the run of queries
+    // nor the scan that follows may hold more than one stream's worth.
+    out.push(measure("successor_queries.x20000", || {
+        let mut n = 0u64;
+        for p in probes.iter().cycle().take(20_000) {
+            let mut r = m0.range().ge(p).into_stream();
+            if r.next().is_some() {
+                n += 1;
+            }
+        }
+        n
+    }));
+    out.push(measure("union.k2.x2000_dropped_after_3_items", || {
+        let mut n = 0u64;
+        for p in probes.iter().cycle().take(2_000) {
+            let mut u = m0.op().add(maps[maps.len() - 1].range().ge(p)).union();
+            for _ in 0..3 {
+                if u.next().is_some() {
+                    n += 1;
+                }
+            }
+        }
+        n
+    }));
+    out.push(measure("stream.after_22000_earlier_streams", || drain(m0.stream())));
     out.push(measure("is_subset/superset/disjoint", || {
         let a = &sets[0];
         let b = &sets[std::cmp::min(1, sets.len() - 1)];
